@@ -4,6 +4,7 @@ import (
 	"fmt"
 	"os"
 	"testing"
+	"testing/cryptotest"
 	"testing/synctest"
 	"time"
 )
@@ -21,6 +22,8 @@ var LastInfra *InfraError
 
 func runBubble(t *testing.T, s *Sim) {
 	LastInfra = nil
+	// crypto/rand (keys, certificates, nonces, QUIC connection IDs) repeats per seed
+	cryptotest.SetGlobalRandom(t, Mix(s.Tape.Seed, 0xc0de))
 	runtimeSimRandSeed(Mix(s.Tape.Seed, 0x5eed) | 1)
 	defer runtimeSimRandSeed(0)
 	defer func() {
